@@ -1,6 +1,10 @@
 package specs
 
-import "verif/mc/runner"
+import (
+	"time"
+
+	"verif/mc/runner"
+)
 
 func init() {
 	add(&runner.Spec{
@@ -13,8 +17,8 @@ func init() {
 		}, commonAssume...),
 		Jobs: func(tier string) []runner.Job {
 			return []runner.Job{
-				{Harness: "c10.sched", Mode: "shim", Shards: 16},
-				{Harness: "c10.sched", Mode: "racevar", Shards: 16},
+				{Harness: "c10.sched", Mode: "shim", Shards: 16, Deadline: tiered(tier, 0, 20*time.Minute)},
+				{Harness: "c10.sched", Mode: "racevar", Shards: 16, Deadline: tiered(tier, 0, 20*time.Minute)},
 				{Harness: "c10.free", Mode: "racefree", Shards: 8, GC: "on"},
 			}
 		},
